@@ -3,6 +3,7 @@ package keeper
 import (
 	"bytes"
 	"math"
+	"sort"
 
 	errorsmod "cosmossdk.io/errors"
 	storetypes "cosmossdk.io/store/types"
@@ -103,6 +104,15 @@ func (k Keeper) getBalances(ctx sdk.Context) []types.Owner {
 		owner := types.NewOwner(addr, denomBalances)
 		owners = append(owners, owner)
 	}
+
+	// map iteration order is random: sort so that every node exports the same genesis
+	for _, owner := range owners {
+		for _, denom := range owner.Denoms {
+			sort.Slice(denom.Balances, func(i, j int) bool { return denom.Balances[i].MtId < denom.Balances[j].MtId })
+		}
+		sort.Slice(owner.Denoms, func(i, j int) bool { return owner.Denoms[i].DenomId < owner.Denoms[j].DenomId })
+	}
+	sort.Slice(owners, func(i, j int) bool { return owners[i].Address < owners[j].Address })
 
 	return owners
 }
